@@ -82,8 +82,6 @@ class Slicer:
         if fn is None or list(fn.body) is not stmts and fn.body != stmts:
             return
         now = self._tested_classes(stmts, self.subject)
-        if self.cls_name in now:
-            return
         rel = getattr(self.module, "src_rel", None)
         q = getattr(fn, "_qualname", None)
         rtree = _reference_tree(rel) if rel else None
@@ -94,6 +92,8 @@ class Slicer:
             return
         rsubj = self.subject
         before = self._tested_classes(rf.body, rsubj)
+        if self.cls_name in now and len(now) * 2 >= len(before):
+            return
         if self.cls_name in before and len(now) * 2 < len(before):
             raise Unsliceable(
                 f"`{q}` no longer dispatches on the class of `{self.subject}` by isinstance tests ({len(now)} classes tested, {len(before)} in the "
